@@ -8,6 +8,7 @@ import MC.Model.Intent
 import MC.Model.Highlight
 import MC.Spec.BrailleFinal
 import MC.Model.Numbers
+import MC.Spec.Rows
 open Lean
 
 namespace MC.Driver
@@ -213,7 +214,37 @@ def handleNumbers (op : String) (req : Json) : Option Json :=
     some <| okJ <| Json.arr <| ((MC.Numbers.mergeRow S toks).map fun t => Json.arr #[toJson t.kind, toJson (ofCps t.text)]).toArray
   | _ => none
 
-def handlers : List (String → Json → Option Json) := [handleVariant, handlePreproc, handlePrefs, handleNav, handleTts, handleIntent, handleHighlight, handleBrailleFinal, handleNumbers]
+/-- C03 ops -/
+partial def rowTreeJ : MC.Rows.T → Json
+  | .operand t => toJson (ofCps t)
+  | .op t _ => toJson (ofCps t)
+  | .row ks => Json.arr (ks.map rowTreeJ).toArray
+
+partial def rowTreeOfJson (isOp : String → Bool) : Json → MC.Rows.T
+  | .arr a => .row (a.toList.map (rowTreeOfJson isOp))
+  | j => let s := j.getStr?.toOption.getD ""; if isOp s then .op (cps s) false else .operand (cps s)
+
+def rowToks (req : Json) : List MC.Rows.Tok :=
+  (arrOf req "tokens").toList.map fun j =>
+    let a := j.getArr?.toOption.getD #[]
+    let kind := ((a[0]?.getD Json.null).getStr?).toOption.getD ""
+    let text := cps (((a[1]?.getD Json.null).getStr?).toOption.getD "")
+    if kind == "mo" then .mo text else .operand text
+
+def handleRows (op : String) (req : Json) : Option Json :=
+  match op with
+  | "parse_row" =>
+    some <| match MC.Rows.parseRow (rowToks req) with
+      | .ok t => okJ (rowTreeJ t)
+      | .panic p => panicJ p
+  | "check_bracketed" =>
+    -- tree: nested arrays of strings; ops: the strings that are `mo` leaves
+    let ops := (arrOf req "ops").toList.map fun j => j.getStr?.toOption.getD ""
+    let t := rowTreeOfJson (fun s => ops.contains s) ((req.getObjVal? "tree").toOption.getD Json.null)
+    some <| okJ <| Json.arr ((MC.Spec.Rows.violations t).map fun v => toJson v).toArray
+  | _ => none
+
+def handlers : List (String → Json → Option Json) := [handleVariant, handlePreproc, handlePrefs, handleNav, handleTts, handleIntent, handleHighlight, handleBrailleFinal, handleNumbers, handleRows]
 
 def handle (req : Json) : Json :=
   let op := getStr req "op"
